@@ -494,10 +494,12 @@ class C15Wait(Prop):
 class C15(Sides, C15Wait):
     # waiting can only return when the client's Task objects reach the states that were reported: the client's
     # handling of notification batches in any delivery order (the C06 check) is part of what C15 promises
-    side_specs = [Spec('client', 'c06', ['progression', 'final_state_consistent', 'no_exception'])]
-    clauses = C15Wait.clauses + side_specs[0].clause_names()
-    extra_targets = C15Wait.extra_targets + ['States/Oracle.vo']
-    model_targets = C15Wait.model_targets + ['States/Oracle.vo']
+    side_specs = [Spec('client', 'c06', ['progression', 'final_state_consistent', 'no_exception']),
+                  # ... and the pilot objects theirs (the C14 check, incl. two notifications handled at once)
+                  Spec('pilot', 'c14', ['progression', 'final_state_consistent', 'no_unexpected_exception'])]
+    clauses = C15Wait.clauses + side_specs[0].clause_names() + side_specs[1].clause_names()
+    extra_targets = C15Wait.extra_targets + ['States/Oracle.vo', 'AgentCause/Model.vo']
+    model_targets = C15Wait.model_targets + ['States/Oracle.vo', 'AgentCause/Model.vo']
 
 
 PROP = C15()
